@@ -293,7 +293,13 @@ impl<'a> ExpressionEvaluator<'a> {
                     }
                 }
             }
-            _ => unreachable!("Should not reach here when calling the evaluator"),
+            _ => {
+                // CASE, aggregates outside an aggregation, `*` ...: an error of the statement.
+                // A panic here would kill the worker thread.
+                Err(EvaluationError::InvalidExpression(
+                    "expression cannot be evaluated in this context".to_string(),
+                ))
+            }
         }
     }
 
